@@ -3,6 +3,10 @@
 package backend
 
 import (
+	"go/ast"
+	"go/parser"
+	gotoken "go/token"
+
 	"bytes"
 	"encoding/json"
 	"fmt"
@@ -240,4 +244,55 @@ func vtail(s string) string {
 		return s[len(s)-300:]
 	}
 	return s
+}
+
+
+// TestVerifDump extracts, from the AST of backend.go, the order of the two deferred actions of a
+// worker in ClassifyLicenses (handing the task slot back, signalling completion) for
+// LC/Gen/CliProtocol.lean. The extractor only reports; LC/Props/C19.lean decides.
+func TestVerifDump(t *testing.T) {
+	fset := gotoken.NewFileSet()
+	f, err := parser.ParseFile(fset, "backend.go", nil, 0)
+	if err != nil {
+		t.Fatal(err)
+	}
+	var events []string
+	ast.Inspect(f, func(n ast.Node) bool {
+		fd, ok := n.(*ast.FuncDecl)
+		if !ok || fd.Name.Name != "ClassifyLicenses" {
+			return true
+		}
+		ast.Inspect(fd, func(m ast.Node) bool {
+			ds, ok := m.(*ast.DeferStmt)
+			if !ok {
+				return true
+			}
+			fl, ok := ds.Call.Fun.(*ast.FuncLit)
+			if !ok {
+				return true
+			}
+			for _, st := range fl.Body.List {
+				switch x := st.(type) {
+				case *ast.SendStmt:
+					if id, ok := x.Chan.(*ast.Ident); ok && id.Name == "task" {
+						events = append(events, "send")
+					}
+				case *ast.ExprStmt:
+					if ce, ok := x.X.(*ast.CallExpr); ok {
+						if se, ok := ce.Fun.(*ast.SelectorExpr); ok && se.Sel.Name == "Done" {
+							events = append(events, "done")
+						}
+					}
+				default:
+					events = append(events, "other")
+				}
+			}
+			return false
+		})
+		return false
+	})
+	b, _ := json.Marshal(map[string]interface{}{"analyzeDefer": events})
+	if err := os.WriteFile(os.Getenv("VERIF_OUT")+"/cliprotocol.json", b, 0o644); err != nil {
+		t.Fatal(err)
+	}
 }
